@@ -631,7 +631,7 @@ func handleInputStream(s *Session, handler Handler) (err error) {
 	}
 	// The reply to an unanswered IQ goes to the sender as received: read it
 	// before the handler sees (and may change) the start element.
-	_, fromAttr := attr.Get(start.Attr, "from")
+	_, fromAttr := attr.Own(start.Attr, "from")
 	if err := handler.HandleXMPP(rw, &start); err != nil {
 		if err == io.EOF {
 			// Only the end of the input stream itself may end the session
